@@ -216,7 +216,7 @@ _t('C19', 'Theorems: every operation of the (repaired) BDDSet state machine on t
    'Trusted: Coq kernel; extraction + ocamlopt; glue. RefCell aliasing (a run-time panic) cannot be exhibited by the pure model; it is covered by the self-aliasing transitions of the BFS. categorize (bit is 0) is modelled as negb (testbit e c).')
 
 _t('C13', 'Theorems about the unique-table ADT (cells + association table): for EVERY finite sequence of mk_choice / mk_const calls whose pointer arguments were handed out earlier, the table invariant holds (keys are the structures of their values, keys pairwise distinct, children of table nodes are table nodes, both leaves present, acyclic), every old pointer keeps its structure (C13_histories), pointer equality coincides with structural equality on handed-out pointers (C13_sharing), and mk_choice returns a pointer whose structure is mk of the operand structures (C13_refine) - so results are functions of operand structures only, which is what the tree model of C02-C07 assumes. '
-          'Partial: that every public operation is a client of this ADT is checked, not proved: a source lint (nodes touched only in size/mk_choice/mk_const/find/new; Choice allocated only in mk_choice/From) plus the dynamic sweep of suite S-hist after every step of every history (fresh-environment re-run identical, all old handles unchanged, Rc::ptr_eq of every reachable node with its table entry).',
+          'The operations as clients of the ADT (Env/HeapOps.v): not, and, or and exists_impl written over addresses as src/bdd.rs writes them over Rc pointers (read the operands\' cells, recurse, finish with mk_choice / mk_const) keep the invariant, leave every earlier pointer valid and unchanged and return a pointer whose structure is the tree model\'s result (C13_not_client, C13_and_client, C13_or_client; generic in the leaf cases); the same for every composition of them, operands evaluated left to right (C13_connectives_client over a small program language: implies, ite, eq, xor, nor, nand, var, const, exists / all over lists, the counting cascade, C13_derived_programs); with fuel above the operand heights the recursion answers, i.e. the `unsupported match` arm is unreachable (C13_and_total). Partial: that the Rust functions ARE these address-level programs (and model / retain / clean / fp likewise) is checked, not proved: a source lint (nodes touched only in size/mk_choice/mk_const/find/new; Choice allocated only in mk_choice/From) plus the dynamic sweep of suite S-hist after every step of every history (fresh-environment re-run identical, all old handles unchanged, Rc::ptr_eq of every reachable node with its table entry).',
    'Trusted: Coq kernel; extraction + ocamlopt; glue. The Heap model abstracts FxHashMap<BDD, Rc<BDD>> as an association list keyed by structure and Rc pointers as addresses; hashing itself (derive(Hash), FxHasher) is not modelled. Operations-are-ADT-clients is established by lint and run-time check only.')
 
 _t('C14', 'Theorems about the export functions as lists of (structure, label, structure): the node list has no repetition under every filter (C14_nodes_once); with filter Any every edge joins declared nodes (C14_edges_declared) and following from the root the edge labelled with each tested variable\'s value reaches the leaf beval (C14_walk: the graph denotes the same function); '
